@@ -74,6 +74,7 @@ Proof.
   - inversion Hs; subst. exact H.
   - destruct ((0 <? d) && negb (timer_blocks c (now s + d) (pa s)) && negb (timer_blocks c (now s + d) (pb s))); inversion Hs; subst.
     exact H.
+  - destruct fxT; inversion Hs; subst. apply cinv_setb; auto.
 Qed.
 
 (* C31: "every drop is counted and reported upstream": the dropped counter equals the number of refused
@@ -91,7 +92,7 @@ Qed.
 Definition btrans (fxT fxR : bool) (c : cfg) (t : Z) (b b' : buf) : Prop :=
   b' = b \/ (exists p, b' = fst (push c p b)) \/ pop_begin c t b = Some b' \/ wake c b = Some b' \/
   timer_fire fxT c t b = Some b' \/ write_ok c t b = Some b' \/ (exists k, write_err fxR k b = Some b') \/
-  b' = close_buf b.
+  b' = close_buf b \/ b' = signal b.
 
 Lemma step_btrans : forall fxT fxR c st s s' x,
   app_step fxT fxR c st s = Some s' ->
@@ -126,6 +127,8 @@ Proof.
     destruct (timer_blocks c (now s + d) (pb s)) eqn:EB; simpl in Hs; try discriminate.
     inversion Hs; subst. split. { left. destruct x; reflexivity. }
     right. exists d. apply Z.ltb_lt in Ed. destruct x; simpl; auto.
+  - destruct fxT; inversion Hs; subst. split; [|left; destruct a; reflexivity].
+    destruct x, a; simpl; auto 12.
 Qed.
 
 (* timing invariant of one buffer (repaired variant): a waiting sender is within swapWaitMax of the start of
@@ -205,7 +208,7 @@ Lemma btrans_delay : forall fxR c t n tz b b',
   tb c t b' /\ dq n tz b'.
 Proof.
   intros fxR c t n tz b b' Hc Ht Htb Hdq Hbi.
-  destruct Ht as [H|[(p & H)|[H|[H|[H|[H|[(k & H)|H]]]]]]]; [subst b'; auto|subst b'| | | | | |subst b'].
+  destruct Ht as [H|[(p & H)|[H|[H|[H|[H|[(k & H)|[H|H]]]]]]]]; [subst b'; auto|subst b'| | | | | |subst b'|subst b'].
   - (* push *)
     unfold push. destruct (cLen c <=? wi b); simpl.
     + split; [apply tb_signal|apply dq_signal]; auto.
@@ -271,6 +274,8 @@ Proof.
     split.
     + unfold close_buf. apply tb_signal. unfold tb in *; simpl. exact Htb.
     + left. unfold close_buf, signal; simpl. destruct (bst b); auto.
+  - (* late Broadcast *)
+    split; [apply tb_signal|apply dq_signal]; auto.
 Qed.
 
 Definition tinv (c : cfg) (s : pool) : Prop := tb c (now s) (pa s) /\ tb c (now s) (pb s).
